@@ -197,6 +197,7 @@ Definition vip_conf_kinds : list string := ["service-resolver"; "service-default
 Definition free_vip (name : string) (s : st) : st :=
   if negb (vips_on s) then s
   else if has_instance name s then s
+  else if has_connect_instance name s then s   (* a sidecar proxy / native instance still advertises it *)
   else if existsb (fun k => bool_decide (is_Some (confs s !! (k, name)))) vip_conf_kinds then s
   else match vips s !! name with
        | None => s
@@ -362,13 +363,13 @@ Definition update_gateway_services (name : string) (c : conf) (s : st) : st :=
              else update_gateway_service name sv port r s') s2 ms.
 
 (* ---------- mesh-topology for proxies ---------- *)
-(* updateMeshTopology.  The row of an (upstream, downstream) pair that already exists is NOT
-   extended: the code shadows the copied mapping, so the row is rewritten with this instance as its
-   only reference.  Upstreams the instance no longer lists lose their row whatever other instances
-   still list them. *)
+(* updateMeshTopology: the instance is added to the references of every pair it lists (a new row has
+   it as its only reference).  Upstreams the instance no longer lists lose their row whatever other
+   instances still list them (DeleteAll by (upstream, downstream)), and it is the NEW destination
+   the old upstreams are paired with. *)
 Definition update_mesh_topology (nd sid : string) (dest : string) (ups : list string)
            (existing : option svc) (s : st) : st :=
-  let s1 := foldl (fun s' u => s' <| topo ::= <[(u, dest) := {[ (nd, sid) ]}]> |>) s ups in
+  let s1 := foldl (fun s' u => s' <| topo ::= <[(u, dest) := {[ (nd, sid) ]} ∪ default ∅ (topo s' !! (u, dest))]> |>) s ups in
   let old := match existing with Some e => sv_ups e | None => [] end in
   foldl (fun s' u => if bool_decide (u ∈ ups) then s' else s' <| topo ::= delete (u, dest) |>) s1 old.
 
